@@ -121,14 +121,15 @@ theorem C05_subList_spec (h : Heap) (a : Nat) (s e : Int)
 example : L.subList exH 0 1 (-1) = (exH ++ [.list [.int 1] 0], .ok ⟨3, 0⟩) :=
   C05_subList_spec exH 0 1 (-1) (by decide) 2 (by decide) (by decide) (by decide)
 
-/-- `Concat`: a fresh cell holding `xs ++ ys`; receiver and argument cells are untouched -/
+/-- `Concat`: a fresh cell holding `xs ++ ys`; receiver and argument cells are untouched; the argument may
+be a derived list of any embedding level (no hypothesis on `h.ego r.addr`, since the repair F9) -/
 theorem C05_concat_spec (h : Heap) (a : Nat) (r : Ref)
-    (he : h.ego r.addr = 0) (hl : h.isList r.addr = true) :
+    (hl : h.isList r.addr = true) :
     L.concat h a r = (h ++ [.list (h.items a ++ h.items r.addr) 0], .ok ⟨h.length, 0⟩) ∧
     ∀ b, b < h.length → (h ++ [Cell.list (h.items a ++ h.items r.addr) 0])[b]? = h[b]? :=
-  ⟨L.concat_ok h a r he hl, fun _ hb => getElem?_append_old h _ hb⟩
+  ⟨L.concat_ok h a r hl, fun _ hb => getElem?_append_old h _ hb⟩
 
-example := C05_concat_spec exH 0 ⟨1, 0⟩ (by decide) (by decide)
+example := C05_concat_spec exH 0 ⟨1, 0⟩ (by decide)
 
 /-- `NewList(values...)` of scalars: a fresh cell holding the normalised values -/
 theorem C05_new_spec (h : Heap) (gs : List GoVal) (hs : ∀ g ∈ gs, g.isScalar = true) :
@@ -312,8 +313,8 @@ theorem C05_frame_deriving (h : Heap) (a : Nat) (s e : Int) (r : Ref) (gs : List
     repeat' split at hq
     all_goals (cases hq <;> rfl)
   · intro q hq
-    by_cases hb : h.ego r.addr = 0 ∧ h.isList r.addr = true
-    · rw [L.concat_ok h a r hb.1 hb.2] at hq; cases hq; rfl
+    by_cases hb : h.isList r.addr = true
+    · rw [L.concat_ok h a r hb] at hq; cases hq; rfl
     · rw [L.concat_bad h a r hb] at hq; cases hq
 
 /-! ## 5. `Get` returns the identical nested container; changes through one alias are visible -/
